@@ -132,6 +132,28 @@ def run_shard(sh):
 
     rl = rules()
     res['sets']['rules'] = [r for r, _ in rl]
+    # ------------------------------------------------------------ requests outside /v1/peer/ (API root, peer list) have no effect on the peer
+    if sh['part'] < len(STATES):
+        st = STATES[sh['part']]
+        w = world_for(st)
+        for url, hdr in (('/v1/', {}), ('/v1', {}), ('/v1/peers', w.auth()), ('/v1/peers', {}), ('/', {}), ('/v1/', w.auth())):
+            before = full_fp(w)
+            resp = w.client.open(url, method='GET', headers=hdr)
+            w.settle()
+            res['counters']['requests'] += 1
+            res['evaluations'] += 1
+            res['distinct'].append('outside|%s|%s|%s' % (st, url, bool(hdr)))
+            repx = dict(state=st, url=url, authenticated=bool(hdr))
+            try:
+                after = full_fp(w)
+            except Exception as e:
+                bad('outside-request-effect', ['url:' + url, 'state-unreadable'], 'after GET %s in %s the running configuration / session state cannot be read any more: %r' % (url, st, e), repx)
+                break
+            if after != before:
+                bad('outside-request-effect', ['url:' + url], 'GET %s in %s changed the world' % (url, st), repx)
+            code, jb = w.rest('GET', 'state')
+            if code != 200:
+                bad('outside-request-effect', ['url:' + url, 'then-state:%s' % code], 'after GET %s (answered %s) an authenticated GET state answers %s' % (url, resp.status_code, code), repx)
     # ------------------------------------------------------------ authentication / no effect / gate
     combos = [(st, r, ms, m) for st in STATES for (r, ms) in rl for m in METHODS]
     for idx, (st, rule, served, method) in enumerate(combos):
